@@ -46,6 +46,10 @@ func (callback *Callback) Validate(ctx context.Context, opts ...ValidationOption
 	sort.Strings(keys)
 	for _, key := range keys {
 		v := callback.Value(key)
+		if v != nil && v.Ref != "" {
+			// a path item given by reference is validated where it is defined (and may lead back here)
+			continue
+		}
 		if err := v.Validate(ctx); err != nil {
 			return err
 		}
